@@ -21,6 +21,8 @@ package main
 //@ # the per-struct rewriting step (the function literal handed to ast.Inspect)
 //@ func cmd/plenctag.*config.rewrite$2
 //@   safety C20
+//@   # the walk always goes on into the children of a node: struct types nested in a field's type are reached too
+//@   ensures[C20] result
 //@   # pass 1: maxPlenc only grows, so it ends at least as large as every index seen
 //@   loop 1 invariant[C20] maxPlenc >= entry_maxPlenc
 //@   loop 1 decreases rangelen - rangeindex
